@@ -85,9 +85,11 @@ type Match struct {
 
 // BackRef of a rule.
 type BackRef struct {
-	Name   string `json:"name"`
-	Port   *int   `json:"port,omitempty"`
-	Weight *int   `json:"weight,omitempty"`
+	Name string `json:"name"`
+	// Namespace: the optional namespace field of the backendRef (another namespace than the route's)
+	Namespace string `json:"namespace,omitempty"`
+	Port      *int   `json:"port,omitempty"`
+	Weight    *int   `json:"weight,omitempty"`
 }
 
 // RouteRule ...
@@ -147,6 +149,10 @@ func backendRefs(bs []BackRef) []gatewayv1.BackendRef {
 	for _, b := range bs {
 		br := gatewayv1.BackendRef{}
 		br.Name = gatewayv1.ObjectName(b.Name)
+		if b.Namespace != "" {
+			ns := gatewayv1.Namespace(b.Namespace)
+			br.Namespace = &ns
+		}
 		if b.Port != nil {
 			p := gatewayv1.PortNumber(*b.Port)
 			br.Port = &p
